@@ -127,6 +127,7 @@ struct HLtiMeas : public LTIMeasurementModel {
     }
     VectorDescription getInputDescription() const override { return VectorDescription(H_.cols(), 0, R_.rows()); }
     VectorDescription getMeasurementDescription() const override { return VectorDescription(H_.rows()); }
+    void setNoise(const MatrixXd& R) { R_ = R; }
     VectorXd y_; int fail_;
 };
 
@@ -485,6 +486,18 @@ static std::string ukfcs(Toks& t) {
     Out o; o.s("ok");
     for (long s = 0; s < steps; ++s) {
         long fail = t.nat(), k = t.nat();
+        // optional new noise dimension / noise input matrix / noise covariance from this step on (generic constructor with
+        // update_weights_online: "the noise size might depend on the number of measurements available")
+        long chg = t.nat();
+        if (chg) {
+            nz = t.nat();
+            D = t.mat(m, nz); R = t.mat(nz, nz); Reff = t.mat(m, m);
+            if (!um1) throw vh::BadArgs("chg");
+            MatrixXd A(m, n + nz); A << H, D;
+            um1->A_ = A; um1->R_ = R; um1->in_ = VectorDescription(n, 0, nz);
+            km->setNoise(Reff);
+            w = sigma_point::UTWeight(VectorDescription(n, 0, nz), a, b, kap);
+        }
         VectorXd y = t.vec(m);
         GaussianMixture pred(k, n), corrU(k, n), corrK(k, n);
         pred.mean() = t.mat(n, k); pred.covariance() = t.mat(n, n * k);
